@@ -40,10 +40,8 @@ bool Mul::is_canonical(const RCP<const Number> &coef,
         if ((is_a<Integer>(*p.first) or is_a<Rational>(*p.first))
             and is_a<Integer>(*p.second))
             return false;
-        // e.g. 0**x
-        if (is_a<Integer>(*p.first)
-            and down_cast<const Integer &>(*p.first).is_zero())
-            return false;
+        // 0**x is kept: pow(0, x) stays unevaluated for a symbolic x and
+        // may be multiplied like any other power
         // e.g. 1**x
         if (is_a<Integer>(*p.first)
             and down_cast<const Integer &>(*p.first).is_one())
